@@ -44,6 +44,8 @@ theorem line_eq_iff (a n s m b i : Nat) (hm : m < n) (hb : b < s) :
   · rintro ⟨h1, h2, h3⟩
     rw [hre, h1, h2, h3, Nat.mul_comm n s, ← Nat.div_div_eq_div_mul, Nat.div_add_mod', Nat.div_add_mod']
 
+theorem natProd_cons (x : Nat) (xs : List Nat) : natProd (x :: xs) = x * natProd xs := rfl
+
 theorem natProd_append (l₁ l₂ : List Nat) : natProd (l₁ ++ l₂) = natProd l₁ * natProd l₂ := by
   induction l₁ with
   | nil => simp [natProd]
@@ -73,8 +75,7 @@ theorem foldl_kron_eye (ns : List Nat) (m : Mat α) (i j : Nat) :
   induction ns generalizing m with
   | nil => simp [natProd, Nat.mod_one]
   | cons n ns ih =>
-    rw [List.map_cons, List.foldl_cons, ih, kron_val, eye_val, eye_nrow, eye_ncol]
-    simp only [natProd]
+    rw [List.map_cons, List.foldl_cons, ih, kron_val, eye_val, eye_nrow, eye_ncol, natProd_cons]
     rw [Nat.div_div_eq_div_mul, Nat.div_div_eq_div_mul, Nat.mul_comm (natProd ns) n, mul_assoc]
     congr 1
     by_cases h : i % (n * natProd ns) = j % (n * natProd ns)
@@ -140,12 +141,154 @@ theorem kronChain_val (pre post : List Nat) (n : Nat) (core : Mat α) (hr : core
   | cons a pre' =>
     simp only [List.map_cons, List.cons_append]
     rw [List.foldl_append, List.foldl_cons, foldl_kron_eye, kron_val, foldl_kron_eye_eye, hr, hc]
-    by_cases h1 : i / natProd post / n = j / natProd post / n
-    · rw [if_pos h1, one_mul]
-      by_cases h2 : i % natProd post = j % natProd post
-      · rw [if_pos h2, if_pos ⟨h1, h2⟩, mul_one]
-      · rw [if_neg h2, if_neg (fun hh => h2 hh.2), mul_zero]
-    · rw [if_neg h1, if_neg (fun hh => h1 hh.1), zero_mul, zero_mul]
+    by_cases h : i / natProd post / n = j / natProd post / n ∧ i % natProd post = j % natProd post
+    · rw [if_pos h, if_pos h.1, if_pos h.2, one_mul, mul_one]
+    · rw [if_neg h]
+      by_cases h1 : i / natProd post / n = j / natProd post / n
+      · have h2 : ¬ i % natProd post = j % natProd post := fun h2 => h ⟨h1, h2⟩
+        rw [if_neg h2, mul_zero]
+      · rw [if_neg h1, zero_mul, zero_mul]
+
+/-! ## the rows of `K_d` and their Gram sum -/
+
+theorem derivCoef_zero' (t : Int → α) (order p k : Nat) : derivCoef t order p (fun _ => (0 : α)) k = 0 := by
+  induction p generalizing k with
+  | zero => rfl
+  | succ p ih =>
+    simp only [derivCoef, L.div_eq, L.mul_eq, L.sub_eq]
+    rw [ih, ih, sub_zero, mul_zero, zero_div]
+
+/-- row `q = (a(n−p)+κ)s+b` of `K_d` at column `i`: row `κ` of the finite-difference matrix at the digit of `i`
+along the dimension, if the other digits of `i` are `(a, b)`; zero otherwise -/
+theorem penaltyRow_val (t : Int → α) (order p n s a κ b i : Nat) (hκ : κ < n - p) (hb : b < s) :
+    penaltyRow t order p n s ((a * (n - p) + κ) * s + b) i
+      = if a = i / (n * s) ∧ b = i % s then (finiteDiff t order p n).get κ ((i / s) % n) else 0 := by
+  obtain ⟨e1, e2, e3⟩ := decode3 a κ b s (n - p) hb hκ
+  have hn : 0 < n := by omega
+  unfold penaltyRow
+  simp only [e1, e2, e3]
+  by_cases h : a = i / (n * s) ∧ b = i % s
+  · rw [if_pos h, finiteDiff_get_eq_derivCoef t order p n κ _ hκ (Nat.mod_lt _ hn)]
+    apply derivCoef_congr'
+    intro m h1 h2
+    have hm : m < n := by omega
+    rw [L.one_eq, L.zero_eq]
+    by_cases hm' : m = (i / s) % n
+    · rw [if_pos hm', if_pos ((line_eq_iff a n s m b i hm hb).mpr ⟨h.1, hm', h.2⟩)]
+    · rw [if_neg hm', if_neg (fun hh => hm' ((line_eq_iff a n s m b i hm hb).mp hh).2.1)]
+  · rw [if_neg h, ← derivCoef_zero' t order p κ]
+    apply derivCoef_congr'
+    intro m h1 h2
+    have hm : m < n := by omega
+    rw [L.one_eq, L.zero_eq]
+    have hne : ¬ a * n * s + m * s + b = i := fun hh =>
+      h ⟨((line_eq_iff a n s m b i hm hb).mp hh).1, ((line_eq_iff a n s m b i hm hb).mp hh).2.2⟩
+    rw [if_neg hne]
+
+/-- `Σ_q K_d[q,i] K_d[q,j]` entrywise -/
+theorem gram_sum (t : Int → α) (order p n s Ao i j : Nat) (hs : 0 < s) (hn : 0 < n) (hi : i < Ao * (n * s)) :
+    ∑ q ∈ range (Ao * (n - p) * s), penaltyRow t order p n s q i * penaltyRow t order p n s q j
+      = if i / (n * s) = j / (n * s) ∧ i % s = j % s
+        then ∑ κ ∈ range (n - p), (finiteDiff t order p n).get κ ((i / s) % n) * (finiteDiff t order p n).get κ ((j / s) % n)
+        else 0 := by
+  have hai : i / (n * s) < Ao := (Nat.div_lt_iff_lt_mul (Nat.mul_pos hn hs)).mpr hi
+  have hbi : i % s < s := Nat.mod_lt _ hs
+  rw [sum_range_mul', sum_range_mul']
+  rw [Finset.sum_eq_single (i / (n * s))]
+  · -- the block `a = i / (n s)`
+    have hinner : ∀ κ ∈ range (n - p),
+        ∑ b ∈ range s, penaltyRow t order p n s ((i / (n * s) * (n - p) + κ) * s + b) i
+            * penaltyRow t order p n s ((i / (n * s) * (n - p) + κ) * s + b) j
+          = if i / (n * s) = j / (n * s) ∧ i % s = j % s
+            then (finiteDiff t order p n).get κ ((i / s) % n) * (finiteDiff t order p n).get κ ((j / s) % n)
+            else 0 := by
+      intro κ hκ
+      have hκ' := mem_range.mp hκ
+      rw [Finset.sum_eq_single (i % s)]
+      · rw [penaltyRow_val t order p n s _ κ _ i hκ' hbi, penaltyRow_val t order p n s _ κ _ j hκ' hbi,
+          if_pos ⟨rfl, rfl⟩]
+        by_cases h : i / (n * s) = j / (n * s) ∧ i % s = j % s
+        · rw [if_pos h, if_pos h]
+        · rw [if_neg h, if_neg h, mul_zero]
+      · intro b hb hne
+        rw [penaltyRow_val t order p n s _ κ b i hκ' (mem_range.mp hb), if_neg (fun hh => hne hh.2), zero_mul]
+      · intro hh; exact absurd (mem_range.mpr hbi) hh
+    rw [Finset.sum_congr rfl hinner]
+    by_cases h : i / (n * s) = j / (n * s) ∧ i % s = j % s
+    · simp only [if_pos h]
+    · simp only [if_neg h, Finset.sum_const_zero]
+  · intro a ha hne
+    apply Finset.sum_eq_zero
+    intro κ hκ
+    apply Finset.sum_eq_zero
+    intro b hb
+    rw [penaltyRow_val t order p n s a κ b i (mem_range.mp hκ) (mem_range.mp hb), if_neg (fun hh => hne hh.1), zero_mul]
+  · intro hh; exact absurd (mem_range.mpr hai) hh
+
+theorem dtd_get (t : Int → α) (order p n x y : Nat) (hx : x < n) (hy : y < n) :
+    (dtd (finiteDiff t order p n)).get x y
+      = ∑ κ ∈ range (n - p), (finiteDiff t order p n).get κ x * (finiteDiff t order p n).get κ y := by
+  have hm : (finiteDiff t order p n).m = n := rfl
+  have hn : (finiteDiff t order p n).n = n - p := rfl
+  unfold dtd
+  rw [hm, hn, tab2_get_ofFn _ hx hy, sumTo_eq_sum]
+  exact Finset.sum_congr rfl (fun q _ => by rw [L.mul_eq])
+
+/-! ## one dimension of the chain = one Gram matrix -/
+
+theorem strides_tail (d : Dim α) (l : List (Dim α)) (h : StridesRowMajor (d :: l)) : StridesRowMajor l := by
+  cases l with
+  | nil => trivial
+  | cons d' ds => exact h.2
+
+theorem strides_suffix (pre l : List (Dim α)) (h : StridesRowMajor (pre ++ l)) : StridesRowMajor l := by
+  induction pre with
+  | nil => exact h
+  | cons a pre ih => exact ih (strides_tail a _ h)
+
+theorem stride_head (d : Dim α) (post : List (Dim α)) (h : StridesRowMajor (d :: post)) :
+    d.stride = natProd (post.map (·.naxes)) := by
+  induction post generalizing d with
+  | nil => exact h
+  | cons d' ds ih =>
+    obtain ⟨h1, h2⟩ := h
+    rw [h1, ih d' h2, List.map_cons, natProd_cons, Nat.mul_comm]
+
+theorem calcPenalty_eq_gram (pre post : List (Dim α)) (d : Dim α) (hs : StridesRowMajor (pre ++ d :: post))
+    (p i j : Nat)
+    (hi : i < natProd ((pre ++ d :: post).map (·.naxes))) (hj : j < natProd ((pre ++ d :: post).map (·.naxes))) :
+    (calcPenalty ((pre ++ d :: post).map (·.naxes)) d.knots pre.length d.order p).val i j
+      = ∑ q ∈ range (penaltyNK d p (natProd ((pre ++ d :: post).map (·.naxes)))),
+          penaltyRow d.knots d.order p d.naxes d.stride q i * penaltyRow d.knots d.order p d.naxes d.stride q j := by
+  have hst : d.stride = natProd (post.map (·.naxes)) := stride_head d post (strides_suffix pre _ hs)
+  have hN : natProd ((pre ++ d :: post).map (·.naxes))
+      = natProd (pre.map (·.naxes)) * (d.naxes * natProd (post.map (·.naxes))) := by
+    rw [List.map_append, List.map_cons, natProd_append, natProd_cons]
+  rw [hN] at hi hj ⊢
+  have hpos : 0 < d.naxes * natProd (post.map (·.naxes)) := by
+    rcases Nat.eq_zero_or_pos (d.naxes * natProd (post.map (·.naxes))) with h | h
+    · rw [h] at hi; simp at hi
+    · exact h
+  have hn : 0 < d.naxes := Nat.pos_of_mul_pos_right hpos
+  have hsp : 0 < natProd (post.map (·.naxes)) := Nat.pos_of_mul_pos_left hpos
+  have hNK : penaltyNK d p (natProd (pre.map (·.naxes)) * (d.naxes * natProd (post.map (·.naxes))))
+      = natProd (pre.map (·.naxes)) * (d.naxes - p) * natProd (post.map (·.naxes)) := by
+    unfold penaltyNK
+    rw [hst, Nat.mul_div_cancel _ hpos]
+  rw [hNK, hst, gram_sum d.knots d.order p d.naxes _ _ i j hsp hn hi]
+  -- the model side
+  have hlen : pre.length = (pre.map (·.naxes)).length := by simp
+  have hget : ((pre ++ d :: post).map (·.naxes)).getD pre.length 0 = d.naxes := by
+    simp [List.getD_eq_getElem?_getD]
+  unfold calcPenalty
+  rw [hget, List.map_append, List.map_cons, hlen,
+    kronChain_val (pre.map (·.naxes)) (post.map (·.naxes)) d.naxes _ rfl rfl i j hi hj]
+  rw [Nat.div_div_eq_div_mul, Nat.div_div_eq_div_mul, Nat.mul_comm (natProd (post.map (·.naxes))) d.naxes]
+  by_cases h : i / (d.naxes * natProd (post.map (·.naxes))) = j / (d.naxes * natProd (post.map (·.naxes)))
+      ∧ i % natProd (post.map (·.naxes)) = j % natProd (post.map (·.naxes))
+  · rw [if_pos h, if_pos h]
+    exact dtd_get d.knots d.order p d.naxes _ _ (Nat.mod_lt _ hn) (Nat.mod_lt _ hn)
+  · rw [if_neg h, if_neg h]
 
 end
 end PsV
